@@ -347,6 +347,8 @@ func cmdCheck(args []string) {
 	// vacuity: every harness must have at least one path that returns and
 	// every selected label must be reached.
 	var vacuous []string
+	reachedPrefix := map[string]bool{}
+	wantedPrefix := map[string]bool{}
 	obligations, discharged := 0, 0
 	states, transitions := 0, 0
 	var hev []harnessEvidence
@@ -375,9 +377,14 @@ func cmdCheck(args []string) {
 			if !w && len(ex.Violations) == 0 {
 				vacuous = append(vacuous, fmt.Sprintf("%s: no replayed reachability witness for %s", ex.Name, k))
 			}
+			for _, pfx := range j.spec.Labels {
+				if pfx == "*" || strings.HasPrefix(st.Label, pfx) {
+					reachedPrefix[pfx] = true
+				}
+			}
 		}
-		if len(ex.Sites) == 0 {
-			vacuous = append(vacuous, ex.Name+": no assertion site reached")
+		for _, pfx := range j.spec.Labels {
+			wantedPrefix[pfx] = true
 		}
 		hev = append(hev, he)
 		states += ex.Paths
@@ -406,6 +413,19 @@ func cmdCheck(args []string) {
 	}
 	if len(samples) > 12 {
 		samples = samples[:12]
+	}
+	// every label family the property lists must be reached by some harness
+	if *only == "" {
+		var missing []string
+		for pfx := range wantedPrefix {
+			if pfx != "*" && !reachedPrefix[pfx] {
+				missing = append(missing, pfx)
+			}
+		}
+		sort.Strings(missing)
+		for _, pfx := range missing {
+			vacuous = append(vacuous, "no assertion with label prefix "+pfx+" was reached by any harness of this check")
+		}
 	}
 	if exit == 0 && (len(inconclusive) > 0 || len(encoderErrors) > 0 || len(vacuous) > 0) {
 		exit = 2
